@@ -107,7 +107,74 @@ def c11a(prog, R):
         for c in f.calls_to(callee):
             ok = any(o.kind == "param" and o.what == 1 for o in origins(f, c.args[1]))
             r.check(ok, "%s|%s keyed by the table_id parameter" % (fn_, short(callee)), "cache accessed with a foreign id", f.where(c.bb))
-    r.floor(11)
+    # every GlobalTableId is built as (tree id, file id), in that order (the components are both u64)
+    n = 0
+    for p, f in sorted(prog.fns.items()):
+        for c in f.calls:
+            if not (any("table::id::GlobalTableId" in s_ for s_ in c.substs) and c.sres.endswith(("Into<U>>::into", "::from")) and c.args):
+                continue
+            for o in origins(f, c.args[0]):
+                if o.kind != "agg" or not isinstance(o.extra, dict) or len(o.extra.get("ops", [])) != 2:
+                    continue
+                n += 1
+                comp = []
+                for sub in o.extra["ops"]:
+                    names = set()
+                    for x in origins(f, sub):
+                        if x.path:
+                            names.add(x.path[-1])
+                        elif x.kind == "param":
+                            names.add(f.local_name(x.what) or "?")
+                        elif x.kind == "call":
+                            names.add(x.extra.sres.split("::")[-1] + "()")
+                        else:
+                            names.add(x.kind)
+                    comp.append(names)
+                ok0 = bool(comp[0]) and comp[0] <= {"tree_id"}
+                ok1 = bool(comp[1]) and comp[1] <= {"id", "id()", "blob_file_id", "table_id"}
+                r.check(ok0 and ok1, "%s|GlobalTableId::from((tree id, file id))" % p,
+                        "a global (cache / descriptor-table) id is built from (%s, %s): with a shared cache or descriptor table "
+                        "entries of another tree's file can be served" % (sorted(comp[0]), sorted(comp[1])), f.where(c.bb),
+                        "(%s, %s)" % (sorted(comp[0]), sorted(comp[1])))
+    if n < 7:
+        r.anchor_missing("GlobalTableId construction sites (found %d, confirmed 7)" % n)
+    # every argument passed for a parameter called tree_id / vlog_id is a tree id
+    from rules.engine import deep_origins
+    m = 0
+    for p, f in sorted(prog.fns.items()):
+        for c in f.calls:
+            g = prog.fn(c.sres) if c.local else None
+            if g is None:
+                continue
+            for i in range(min(g.argc, len(c.args))):
+                if g.local_name(i + 1) not in ("tree_id", "vlog_id"):
+                    continue
+                m += 1
+                bad = []
+                for (h_, x) in deep_origins(prog, f, c.args[i]):
+                    last = x.path[-1] if x.path else None
+                    if last == "tree_id" or (x.kind == "param" and not x.path and h_.local_name(x.what) == "tree_id"):
+                        continue
+                    if x.kind == "call" and x.extra.sres in ("tree::inner::get_next_tree_id", "<tree::Tree as abstract_tree::AbstractTree>::id",
+                                                             "<blob_tree::BlobTree as abstract_tree::AbstractTree>::id"):
+                        continue
+                    if last == "id" and x.kind == "param" and "Tree" in (h_.local_ty(x.what) or ""):
+                        continue
+                    # `<something>.tree.id` / `.index.id` / `index().id`: the id field of the (index) tree
+                    if last == "id" and ((len(x.path) >= 2 and x.path[-2] in ("tree", "index")) or
+                                         (x.kind == "call" and len(x.path) == 1 and x.extra.sres.endswith("::index"))):
+                        continue
+                    bad.append(repr(x))
+                r.check(not bad, "%s|%s(%s = a tree id)" % (p, short(c.sres), g.local_name(i + 1)),
+                        "a value that is not a tree id (%s) is passed as %s" % (bad, g.local_name(i + 1)), f.where(c.bb), str(bad))
+    if m < 15:
+        r.anchor_missing("call sites with a tree_id parameter (found %d, confirmed 21)" % m)
+    fr = prog.fn("<table::id::GlobalTableId as std::convert::From<(u64, u64)>>::from")
+    acc = {"tree_id": prog.hir.get("table::id::GlobalTableId::tree_id"), "table_id": prog.hir.get("table::id::GlobalTableId::table_id")}
+    got = {k: [hir_expr_str(x) for x in hir_walk(v["body"]) if x.get("k") == "field"] for k, v in acc.items() if v}
+    r.check(got.get("tree_id") == ["self.0"] and got.get("table_id") == ["self.1"] and fr is not None,
+            "GlobalTableId|tree_id() = .0, table_id() = .1", "the accessors of GlobalTableId read %s" % got, "", str(got))
+    r.floor(40)
 
 
 def c11b(prog, R):
